@@ -1,6 +1,6 @@
-use crate::decode::error::DecodeError::ECHLengthMismatch;
+use crate::decode::error::DecodeError::{ECHLengthMismatch, SVCBClass};
 use crate::decode::Decoder;
-use crate::rr::{ServiceBinding, ServiceParameter};
+use crate::rr::{Class, ServiceBinding, ServiceParameter};
 use crate::DecodeResult;
 
 use super::Header;
@@ -21,6 +21,10 @@ impl<'a, 'b: 'a> Decoder<'b, 'b> {
         header: Header,
         https: bool,
     ) -> DecodeResult<ServiceBinding> {
+        match header.get_class()? {
+            Class::IN => {}
+            class => return Err(SVCBClass(class)),
+        }
         let priority = self.u16()?;
         let target_name = self.domain_name()?;
         let mut parameters = BTreeSet::new();
